@@ -391,27 +391,38 @@ func ruleNilMapLookup(c *Ctx) {
 	})
 }
 
-// pathFact is one comparison known to hold (neg: known NOT to hold) whenever control reaches a given node.
+// pathCond is one boolean leaf (anything that is not &&, || or !) known to hold (neg: known NOT to hold) whenever
+// control reaches a given node.
+type pathCond struct {
+	e     ast.Expr
+	neg   bool
+	loop  bool // the condition of an enclosing for statement
+	after bool // known because an earlier `if … { leaves }` of an enclosing block did not leave (holds for the rest of that block too)
+}
+
+// pathFact is a pathCond whose leaf is a comparison (or another binary expression).
 type pathFact struct {
 	be   *ast.BinaryExpr
 	neg  bool
-	loop bool // the condition of an enclosing for statement
+	loop bool
 }
 
-// pathFactsAt reads the comparisons that hold at node n off the structure around it: n stands after an
+// pathCondsAt reads the conditions that hold at node n off the structure around it: n stands after an
 // `if C { …leaves… }` of an enclosing block (not C), inside the then-branch of `if C` or the body of `for …; C; …` (C),
 // inside an else-branch (not C), to the right of `C && …` (C) or `C || …` (not C). A conjunction that holds gives each
 // conjunct, a disjunction that does not hold gives the negation of each disjunct; anything else gives nothing.
-func pathFactsAt(parents map[ast.Node]ast.Node, n ast.Node) []pathFact {
-	var out []pathFact
-	inLoop := false
+func pathCondsAt(parents map[ast.Node]ast.Node, n ast.Node) []pathCond {
+	var out []pathCond
+	inLoop, isAfter := false, false
 	var add func(e ast.Expr, neg bool)
 	add = func(e ast.Expr, neg bool) {
 		switch x := ast.Unparen(e).(type) {
 		case *ast.UnaryExpr:
 			if x.Op == token.NOT {
 				add(x.X, !neg)
+				return
 			}
+			out = append(out, pathCond{x, neg, inLoop, isAfter})
 		case *ast.BinaryExpr:
 			switch {
 			case x.Op == token.LAND && !neg, x.Op == token.LOR && neg:
@@ -419,8 +430,10 @@ func pathFactsAt(parents map[ast.Node]ast.Node, n ast.Node) []pathFact {
 				add(x.Y, neg)
 			case x.Op == token.LAND || x.Op == token.LOR:
 			default:
-				out = append(out, pathFact{x, neg, inLoop})
+				out = append(out, pathCond{x, neg, inLoop, isAfter})
 			}
+		default:
+			out = append(out, pathCond{ast.Unparen(e), neg, inLoop, isAfter})
 		}
 	}
 	var child ast.Node = n
@@ -432,7 +445,9 @@ func pathFactsAt(parents map[ast.Node]ast.Node, n ast.Node) []pathFact {
 					break
 				}
 				if is, ok := st.(*ast.IfStmt); ok && is.Else == nil && terminates(is.Body) {
+					isAfter = true
 					add(is.Cond, true)
+					isAfter = false
 				}
 			}
 		case *ast.IfStmt:
@@ -457,6 +472,16 @@ func pathFactsAt(parents map[ast.Node]ast.Node, n ast.Node) []pathFact {
 			}
 		case *ast.FuncLit:
 			return out
+		}
+	}
+	return out
+}
+
+func pathFactsAt(parents map[ast.Node]ast.Node, n ast.Node) []pathFact {
+	var out []pathFact
+	for _, c := range pathCondsAt(parents, n) {
+		if be, ok := c.e.(*ast.BinaryExpr); ok {
+			out = append(out, pathFact{be, c.neg, c.loop})
 		}
 	}
 	return out
